@@ -23,6 +23,7 @@ SHADOW_EVERY = 7
 LIMITS = {"quick": {"max_paths": 1500, "budget_s": 200}, "thorough": {"max_paths": 8000, "budget_s": 900}}
 
 LAYOUTS = {
+    "aux-first": dict(mesh="mesh", extra="part", order="aux-first"),     # groups in another insertion order
     "loader": dict(mesh="mesh", extra="part"),
     "legacy": dict(mesh="amr", extra="hydro"),
     "mesh-only": dict(mesh="mesh", extra=None),
@@ -37,16 +38,18 @@ def configs(tier):
             for uo, us in [("cm", "cm"), ("au", "cm"), ("cm", "pc"), ("au", "au")]:
                 for n in (1, 2):
                     # the box forks 27 ways per row and group: two rows only for single-position layouts
-                    if region == "box" and n == 2 and layout in ("loader", "legacy"):
+                    if region == "box" and n == 2 and layout in ("loader", "legacy", "aux-first"):
                         continue
                     if region == "box" and n == 2 and tier == "quick" and \
                             (layout, uo, us) not in (("mesh-only", "cm", "cm"), ("part-only", "au", "cm")):
                         continue
-                    if region == "box" and tier == "quick" and layout in ("loader", "legacy") and \
+                    if region == "box" and tier == "quick" and layout in ("loader", "legacy", "aux-first") and \
                             (uo, us) not in (("cm", "cm"), ("au", "cm")):
                         continue
                     c = dict(region=region, layout=layout, uo=uo, us=us, n=n, nopos="same")
-                    if region == "box" and (n == 2 or layout in ("loader", "legacy")):
+                    if layout == "aux-first" and (uo, us) != ("cm", "cm") and tier == "quick":
+                        continue
+                    if region == "box" and (n == 2 or layout in ("loader", "legacy", "aux-first")):
                         c["_split"] = 4
                     out.append(c)
         out.append(dict(region=region, layout="loader", uo="cm", us="cm", n=(2 if region == "sphere" else 1), nopos="other",
@@ -91,6 +94,12 @@ def body(m, cfg):
         m.distinct(p["mass"]._array)
         ds[L["extra"]] = p
         groups[L["extra"]] = ("own", p)
+    if L.get("order") == "aux-first":
+        # the position-less group (and the particles) come before the mesh in the dataset
+        for k in ["aux", L["extra"], L["mesh"]]:
+            if k in ds:
+                g_ = ds.pop(k)
+                ds[k] = g_
     origin = Vector(*[m.real("o" + c) for c in "xyz"], unit=uo)
     ov = [m.t(origin.x.values) * fo, m.t(origin.y.values) * fo, m.t(origin.z.values) * fo]
     if region == "sphere":
@@ -176,6 +185,7 @@ def body(m, cfg):
                 m.require(ok, f"member {k} row-aligned with the selection", key=f"aligned:{tag}:{name}:{k}")
                 m.require(str(sg[k].unit) == before[name][k][1], "unit kept", key=f"unit:{tag}:{name}:{k}")
     # input untouched
+    groups = {k: groups[k] for k in ds.keys()} if set(ds.keys()) == set(groups) else groups
     for name, (_, g) in groups.items():
         ok = list(g.keys()) == list(before[name].keys())
         for k in g.keys():
